@@ -4,6 +4,27 @@ import json, sys
 sys.path.insert(0, '/verif')
 from checks_conf import CHECKS, META, NOT_APPLICABLE
 checks = []
+def technique(pid):
+    kinds = set()
+    xs = False
+    for g in CHECKS[pid]["groups"]:
+        for h in g["harnesses"]:
+            kinds.add(h.get("replay", "native-direct"))
+            xs = xs or bool(h.get("xsolver"))
+    t = "bounded symbolic execution of the real Go code (go/ssa, regenerated from /repo on every run) decided by z3 (QF_UFBV)"
+    parts = []
+    if "native-direct" in kinds:
+        parts.append("counterexamples and sampled ok paths re-run on the real build (go test -overlay)")
+    if "native-derived" in kinds:
+        parts.append("crash counterexamples replayed as a concretised disk image against the real recovery code")
+    if "interpreted" in kinds:
+        parts.append("counterexamples of stand-in/schedule harnesses re-executed concretely in the interpreter")
+    t += "; " + "; ".join(parts)
+    if xs:
+        t += "; thorough tier diffs z3 4.8.12 / z3 5.1 / cvc5 verdicts"
+    return t
+
+
 for pid in sorted(CHECKS):
     m = META[pid]
     checks.append({
@@ -15,7 +36,7 @@ for pid in sorted(CHECKS):
         "engine": "symgo",
         "level_claimed": {"category": "model_checking", "text": m["text"], "design_ref": m["design_ref"]},
         "level_note": m["note"],
-        "technique": m["technique"],
+        "technique": technique(pid),
     })
 man = {
     "version": 1,
